@@ -359,22 +359,64 @@ def try_method(ex, s, meth, r, args, kw, node):
             return None
         return [(s, VInt(f[1]))]
     if meth == 'split':
-        if not args or args[0] is VNone:
-            return None
-        sep = concrete_bytes(ex.deref(s, args[0]))
         ms = args[1] if len(args) > 1 else kw.get('maxsplit')
-        if sep is None or len(sep) != 1 or ms is None or concrete_int(ms) != 1:
+        if ms is not None and ms is not VNone and concrete_int(ms) is None:
             return None
+        limit = -1 if ms is None or ms is VNone else concrete_int(ms)
         ps = parts(r.z)
-        f = find_byte(ex, s, ps, sep[0])
-        if f is None:
+        if not args or args[0] is VNone:
+            toks = split_ws(ex, s, ps, limit)
+            if toks is None:
+                return None
+            return [(s, s.alloc(VList([VBytes(t) for t in toks])))]
+        sep = concrete_bytes(ex.deref(s, args[0]))
+        if sep is None or len(sep) != 1:
             return None
-        if f[0] < 0:
-            items = [VBytes(r.z)]
-        else:
-            items = [VBytes(join(ps[:f[0]])), VBytes(join(ps[f[0] + 1:]))]
+        items, rest = [], ps
+        while limit < 0 or len(items) < limit:
+            f = find_byte(ex, s, rest, sep[0])
+            if f is None:
+                return None
+            if f[0] < 0:
+                break
+            items.append(VBytes(join(rest[:f[0]])))
+            rest = rest[f[0] + 1:]
+        items.append(VBytes(join(rest)))
         return [(s, s.alloc(VList(items)))]
     return None
+
+
+def split_ws(ex, s, ps, limit):
+    """bytes.split(None, limit) on a list of parts: tokens are maximal runs without ASCII whitespace; once `limit`
+    splits are done the remainder (leading whitespace dropped, everything else kept) is the last item.  Symbolic
+    pieces must be known to contain no whitespace, and to be non-empty where a token would start; else None."""
+    toks, cur = [], []
+    for i, p in enumerate(ps):
+        if isinstance(p, int):
+            is_ws = p in WS
+        else:
+            if is_empty(ex, s, p):
+                continue
+            if not cur and not first_not_in(ex, s, p, WS):
+                return None                  # cannot tell whether a token starts here
+            if not cur and limit >= 0 and len(toks) == limit:
+                toks.append(join(ps[i:]))     # the unsplit remainder: its content is kept verbatim
+                return toks
+            if not no_byte(ex, s, p, WS):
+                return None                  # may contain whitespace inside a token
+            is_ws = False
+        if is_ws:
+            if cur:
+                toks.append(join(cur))
+                cur = []
+            continue
+        if not cur and limit >= 0 and len(toks) == limit:
+            toks.append(join(ps[i:]))
+            return toks
+        cur.append(p)
+    if cur:
+        toks.append(join(cur))
+    return toks
 
 
 # ------------------------------------------------------------------ length-arithmetic feasibility (opt-in)
